@@ -1,19 +1,17 @@
-use std::{cmp, mem, slice::Iter};
+use std::cmp;
 
 use rosu_map::section::general::GameMode;
 
 use crate::{
     any::difficulty::skills::StrainSkill,
-    model::{beatmap::HitWindows, hit_object::HitObject, mode::ConvertError},
+    model::{beatmap::HitWindows, mode::ConvertError},
     taiko::convert,
-    util::sync::RefCount,
     Beatmap, Difficulty,
 };
 
 use super::{
-    object::{TaikoDifficultyObject, TaikoDifficultyObjects},
-    skills::TaikoSkills,
-    DifficultyValues, TaikoDifficultyAttributes,
+    object::TaikoDifficultyObjects, skills::TaikoSkills, DifficultyValues,
+    TaikoDifficultyAttributes,
 };
 
 /// Gradually calculate the difficulty attributes of an osu!taiko map.
@@ -53,18 +51,12 @@ pub struct TaikoGradualDifficulty {
     pub(crate) difficulty: Difficulty,
     attrs: TaikoDifficultyAttributes,
     diff_objects: TaikoDifficultyObjects,
-    diff_objects_iter: Iter<'static, RefCount<TaikoDifficultyObject>>,
     skills: TaikoSkills,
     total_hits: usize,
-    first_combos: FirstTwoCombos,
-}
-
-#[derive(Copy, Clone, Debug)]
-enum FirstTwoCombos {
-    None,
-    OnlyFirst,
-    OnlySecond,
-    Both,
+    /// Whether the object is a hit, for each object of the map.
+    is_hit: Box<[bool]>,
+    /// Index of the next object to be processed.
+    obj_idx: usize,
 }
 
 impl TaikoGradualDifficulty {
@@ -78,16 +70,6 @@ impl TaikoGradualDifficulty {
 
         let take = difficulty.get_passed_objects();
         let clock_rate = difficulty.get_clock_rate();
-
-        let first_combos = match (
-            map.hit_objects.first().map(HitObject::is_circle),
-            map.hit_objects.get(1).map(HitObject::is_circle),
-        ) {
-            (None, _) | (Some(false), Some(false) | None) => FirstTwoCombos::None,
-            (Some(true), Some(false) | None) => FirstTwoCombos::OnlyFirst,
-            (Some(false), Some(true)) => FirstTwoCombos::OnlySecond,
-            (Some(true), Some(true)) => FirstTwoCombos::Both,
-        };
 
         let HitWindows {
             od_great,
@@ -117,70 +99,93 @@ impl TaikoGradualDifficulty {
             ..Default::default()
         };
 
-        let total_hits = map.hit_objects.iter().filter(|h| h.is_circle()).count();
+        let is_hit: Box<[_]> = map
+            .hit_objects
+            .iter()
+            .zip(map.hit_sounds.iter())
+            .map(|(h, _)| h.is_circle())
+            .collect();
 
-        let diff_objects_iter = extend_lifetime(diff_objects.iter());
+        let total_hits = is_hit.iter().filter(|is_hit| **is_hit).count();
 
         Ok(Self {
             idx: 0,
             difficulty,
             diff_objects,
-            diff_objects_iter,
             skills,
             attrs,
             total_hits,
-            first_combos,
+            is_hit,
+            obj_idx: 0,
         })
     }
-}
 
-fn extend_lifetime(
-    iter: Iter<'_, RefCount<TaikoDifficultyObject>>,
-) -> Iter<'static, RefCount<TaikoDifficultyObject>> {
-    // SAFETY: The underlying data will never be moved.
-    unsafe { mem::transmute(iter) }
+    /// Process the next object and return whether it was a hit.
+    ///
+    /// Returns `None` if all objects have been processed.
+    fn process_next_object(&mut self) -> Option<bool> {
+        let is_hit = *self.is_hit.get(self.obj_idx)?;
+
+        // The first difficulty object belongs to the third object since each
+        // difficulty object requires the current, the last, and the second to
+        // last object. Hence, the first two objects have no difficulty object
+        // and we just skip processing.
+        if let Some(curr) = self
+            .obj_idx
+            .checked_sub(2)
+            .and_then(|i| self.diff_objects.objects.get(i))
+        {
+            let borrowed = curr.get();
+
+            self.skills.rhythm.process(&borrowed, &self.diff_objects);
+            self.skills.reading.process(&borrowed, &self.diff_objects);
+            self.skills.color.process(&borrowed, &self.diff_objects);
+            self.skills.stamina.process(&borrowed, &self.diff_objects);
+            self.skills
+                .single_color_stamina
+                .process(&borrowed, &self.diff_objects);
+        }
+
+        self.obj_idx += 1;
+
+        if is_hit {
+            self.attrs.max_combo += 1;
+            self.idx += 1;
+        }
+
+        Some(is_hit)
+    }
+
+    /// Process all objects up to and including the next hit.
+    ///
+    /// Returns `false` if there was no hit left.
+    fn advance(&mut self) -> bool {
+        if self.idx >= self.total_hits {
+            return false;
+        }
+
+        while let Some(is_hit) = self.process_next_object() {
+            if is_hit {
+                break;
+            }
+        }
+
+        // After the last hit, remaining non-hit objects are part of the play.
+        if self.idx == self.total_hits {
+            while self.process_next_object().is_some() {}
+        }
+
+        true
+    }
 }
 
 impl Iterator for TaikoGradualDifficulty {
     type Item = TaikoDifficultyAttributes;
 
     fn next(&mut self) -> Option<Self::Item> {
-        // The first difficulty object belongs to the third note since each
-        // difficulty object requires the current, the last, and the second to
-        // last note. Hence, if we're still on the first or second object, we
-        // don't have a difficulty object yet and just skip processing.
-        if self.idx >= 2 {
-            loop {
-                let curr = self.diff_objects_iter.next()?;
-                let borrowed = curr.get();
-
-                self.skills.rhythm.process(&borrowed, &self.diff_objects);
-                self.skills.reading.process(&borrowed, &self.diff_objects);
-                self.skills.color.process(&borrowed, &self.diff_objects);
-                self.skills.stamina.process(&borrowed, &self.diff_objects);
-                self.skills
-                    .single_color_stamina
-                    .process(&borrowed, &self.diff_objects);
-
-                if borrowed.base_hit_type.is_hit() {
-                    self.attrs.max_combo += 1;
-
-                    break;
-                }
-            }
-        } else if self.diff_objects.is_empty() {
+        if !self.advance() {
             return None;
-        } else {
-            match self.first_combos {
-                FirstTwoCombos::OnlyFirst => self.attrs.max_combo = 1,
-                FirstTwoCombos::OnlySecond if self.idx == 1 => self.attrs.max_combo = 1,
-                FirstTwoCombos::Both if self.idx == 0 => self.attrs.max_combo = 1,
-                FirstTwoCombos::Both if self.idx == 1 => self.attrs.max_combo = 2,
-                _ => {}
-            }
         }
-
-        self.idx += 1;
 
         let mut attrs = self.attrs.clone();
         let is_relax = self.difficulty.get_mods().rx();
@@ -197,65 +202,10 @@ impl Iterator for TaikoGradualDifficulty {
     }
 
     fn nth(&mut self, n: usize) -> Option<Self::Item> {
-        let mut take = cmp::min(n, self.len().saturating_sub(1));
-
-        // The first two notes have no difficulty object but might add to combo
-        match (take, self.idx) {
-            (_, 2..) | (0, _) => {}
-            (1, 0) => {
-                take -= 1;
-                self.idx += 1;
-
-                match self.first_combos {
-                    FirstTwoCombos::None => {}
-                    FirstTwoCombos::OnlyFirst => self.attrs.max_combo = 1,
-                    FirstTwoCombos::OnlySecond => {}
-                    FirstTwoCombos::Both => self.attrs.max_combo = 1,
-                }
-            }
-            (_, 0) => {
-                take -= 2;
-                self.idx += 2;
-
-                match self.first_combos {
-                    FirstTwoCombos::None => {}
-                    FirstTwoCombos::OnlyFirst => self.attrs.max_combo = 1,
-                    FirstTwoCombos::OnlySecond => self.attrs.max_combo = 1,
-                    FirstTwoCombos::Both => self.attrs.max_combo = 2,
-                }
-            }
-            (_, 1) => {
-                take -= 1;
-                self.idx += 1;
-
-                match self.first_combos {
-                    FirstTwoCombos::None => {}
-                    FirstTwoCombos::OnlyFirst => self.attrs.max_combo = 1,
-                    FirstTwoCombos::OnlySecond => self.attrs.max_combo = 1,
-                    FirstTwoCombos::Both => self.attrs.max_combo = 2,
-                }
-            }
-        }
+        let take = cmp::min(n, self.len().saturating_sub(1));
 
         for _ in 0..take {
-            loop {
-                let curr = self.diff_objects_iter.next()?;
-                let borrowed = curr.get();
-                self.skills.rhythm.process(&borrowed, &self.diff_objects);
-                self.skills.reading.process(&borrowed, &self.diff_objects);
-                self.skills.color.process(&borrowed, &self.diff_objects);
-                self.skills.stamina.process(&borrowed, &self.diff_objects);
-                self.skills
-                    .single_color_stamina
-                    .process(&borrowed, &self.diff_objects);
-
-                if borrowed.base_hit_type.is_hit() {
-                    self.attrs.max_combo += 1;
-                    self.idx += 1;
-
-                    break;
-                }
-            }
+            self.advance();
         }
 
         self.next()
